@@ -12,7 +12,7 @@ from ..snap import is_library_domain_error
 ID = "C13"
 RULE = ("KNNSupervisedOPF and UnsupervisedOPF fits on Gaussian, lattice (heavily tied), rounded, duplicate, collinear and blob data, n=3..30 (quick) / "
         "..70, all k ranges with max_k<=n-1, safe metrics and all symmetric dissimilarities. State is snapshotted at the return of the FINAL clustering "
-        "call (source-free hook; KNN destroys its arcs afterwards) and at fit return. Asserted exactly on stored values: predecessor chains acyclic, "
+        "call (source-free hook; KNN destroys its arcs afterwards) and at fit return; earlier clustering calls of the same fit are only observed. Asserted exactly on stored values: predecessor chains acyclic, "
         "end at a node without predecessor = the recorded root; cluster id / assigned label == root's; roots cost == density; non-roots: member of "
         "pred's post-symmetrisation arc list, cost == min(cost(pred), density), cost > density-1; density - density(root) < 1; unsupervised: "
         "n_clusters == #roots with ids 0..n_clusters-1; propagate_labels gives the root's true label. Non-trivial: >=2 roots, a tree of depth >=2 and "
@@ -142,11 +142,12 @@ def check(case):
         if out == "nonfinite":
             return res.reject("densities-not-finite")
         plateau = any(v > 0 for v in hook["npl"]) if kind == "unsup" else any(len(a) > m.subgraph.best_k for a in hook["adj"])
-        # every intermediate clustering (other k / without forced prototypes) is a forest of the same kind
+        # intermediate clusterings (other k / without forced prototypes) are not "after training": what they look like is recorded
+        # as an observation, never as a verdict
         for t, s in enumerate(snaps[:-1]):
-            o2 = judge(res, s, kind, adj=s["adj"], tag=f"[clustering call #{t}] ")
-            if res.violations:
-                return res
+            tmp = Result()
+            judge(tmp, s, kind, adj=s["adj"], tag=f"[clustering call #{t}] ")
+            res.see("intermediate_clusterings_well_formed" if not tmp.violations else "intermediate_clusterings_irregular")
     adj_final = final["adj"] if kind == "unsup" else None
     out = judge(res, final, kind, adj=adj_final, tag="[at fit return] ")
     if res.violations:
@@ -175,18 +176,29 @@ def check(case):
     return res
 
 
-def _unit_gap_matrix(d34, d40):
-    n, D = 5, np.full((5, 5), 5.0)
+def _unit_gap_matrix(d34, d40, perm=(0, 1, 2, 3, 4), extras=()):
+    n = 5 + len(extras)
+    D = np.full((n, n), 5.0)
     np.fill_diagonal(D, 0.0)
     D[0, 1], D[1, 0], D[2, 3], D[3, 4], D[4, 0] = 0.01, 1.0, 0.05, d34, d40   # 1-NN: 0->1, 1->0, 2->3, 3->4, 4->0
-    return D
+    for j, u in enumerate(extras):       # bystanders on a 1-NN cycle of their own (distances inside (0.01, 1): the density range is untouched);
+        D[5 + j, 5 + (j + 1) % len(extras)] = u      # they only vary the shape of the heap the five roles compete in
+    P = np.zeros_like(D)                 # the roles sit at positions perm[role]: which of two equal-cost samples leaves the heap first
+    for a in range(n):                   # depends on their positions, so every arrangement is tried
+        for b in range(n):
+            P[perm[a], perm[b]] = D[a, b]
+    return P
 
 
-def _unit_gap_case(d34, d40):
-    D = _unit_gap_matrix(d34, d40)
-    return {"model": "unsup", "metric": "log_squared_euclidean", "gclass": "pre:UNITGAP", "pattern": "unitgap", "X": [[float(i)] for i in range(5)],
-            "Y": [0, 0, 1, 1, 1], "V": [[0.0]], "YV": [1], "Q": [[0.0]], "min_k": 1, "max_k": 1, "refit": False, "propagate": False,
-            "pre": {"D": D.tolist(), "I": list(range(5)), "IV": None, "IQ": [0], "kind": "UNITGAP"}}
+def _unit_gap_case(d34, d40, perm=(0, 1, 2, 3, 4), extras=(), model="unsup"):
+    D = _unit_gap_matrix(d34, d40, perm, extras)
+    n = len(D)
+    Y = [0] * n
+    for role, lab in enumerate([0, 0, 1, 1, 1] + [2] * len(extras)):
+        Y[perm[role]] = lab
+    return {"model": model, "metric": "log_squared_euclidean", "gclass": "pre:UNITGAP", "pattern": "unitgap", "X": [[float(i)] for i in range(n)],
+            "Y": Y, "V": [[0.0], [1.0]], "YV": [max(Y), 0], "Q": [[0.0]], "min_k": 1, "max_k": 1, "refit": False, "propagate": False,
+            "pre": {"D": D.tolist(), "I": list(range(n)), "IV": [0, 1] if model == "knn" else None, "IQ": [0], "kind": "UNITGAP"}}
 
 
 def unit_gap_cases(count, seed):
@@ -224,8 +236,11 @@ def unit_gap_cases(count, seed):
                     hi = mid
             for cand in (hi, lo, float(np.nextafter(hi, 1)), float(np.nextafter(lo, 0))):
                 a, b = dens(d34, cand)
-                if b == a + 1:
-                    out.append(_unit_gap_case(d34, cand))
+                if b == a + 1 or b - 1 == a:
+                    m = int(rng.integers(0, 9))
+                    extras = tuple(float(v) for v in rng.uniform(0.02, 0.9, size=m)) if m >= 2 else ()
+                    out.append(_unit_gap_case(d34, cand, tuple(int(v) for v in rng.permutation(5 + len(extras))), extras,
+                                              model="knn" if len(out) % 3 == 2 else "unsup"))
                     break
         except Exception:  # noqa: BLE001 - the probe itself must not decide anything; check() judges the cases it returns
             continue
